@@ -391,8 +391,10 @@ func runMerge(c *ctx, which string) {
 		syntheticFileGroups(c)
 		byteLimitMerges(c)
 		keySetReconfigMerges(c)
+		mergeKeyCorrespondence(c)
 	}
 	if which == "C11" {
+		c17CopiedExternal(c) // stored content survives a merge that copies an external writer's block verbatim
 		overlappingGroupMerges(c)
 	}
 }
@@ -416,7 +418,7 @@ func keySet(m bs.DataBlockMetadata) string {
 		ks = append(ks, k)
 	}
 	sort.Strings(ks)
-	return fmt.Sprint(ks)
+	return fmt.Sprintf("%q", ks)
 }
 
 // syntheticFileGroups compares identifyFileMergeGroups with the Lean fileGroups on metadata-only
